@@ -283,9 +283,10 @@ ZRefs(v) == IF IsZ(v) THEN <<v.z>> ELSE IF IsL(v) THEN ZRefsSeq(v.l) ELSE <<>>
 ForceItems(ids) == [k \in 1..Len(ids) |-> [k |-> "zforce", id |-> ids[k]]]
 
 
-(* LazyList.output: the items already produced are written as vy_print writes them (texts unquoted), the
-   others are produced one by one -- their bodies run NOW, in the state of now -- and written as vy_repr
-   writes them.  The item list is registered as a stack meanwhile. *)
+(* LazyList.output: the items already produced are written, the others are produced one by one -- their
+   bodies run NOW, in the state of now -- and written, all as vy_repr writes them (the implementation wrote
+   the items produced earlier with vy_print, texts unquoted: a list printed twice read differently the second
+   time -- genuine defect, repaired).  The item list is registered as a stack meanwhile. *)
 PrintVal(m, v, end, kont) ==
     IF IsF(v) THEN CallFromRegistered([m EXCEPT !.printed = TRUE], v, <<[k |-> "k_print"]>> \o kont)
     ELSE IF IsZ(v)
@@ -294,7 +295,7 @@ PrintVal(m, v, end, kont) ==
              rc == m.heap[r]
          IN IF rc.state = "busy" THEN Undef(m, "lazy-list-printed-while-it-is-produced")
             ELSE IF c.state = "done"       \* this very object has pulled everything before
-            THEN PushCtl([m EXCEPT !.out = @ \o ZOpen \o JoinSep(rc.acc) \o ZClose \o end, !.printed = TRUE], kont)
+            THEN PushCtl([m EXCEPT !.out = @ \o ZOpen \o ZJoinRepr(rc.acc) \o ZClose \o end, !.printed = TRUE], kont)
             ELSE IF rc.state = "done"      \* a copy that has pulled nothing yet: the items are there, new to the copy
             THEN PushCtl([m EXCEPT !.out = @ \o ZOpen \o ZJoinRepr(rc.acc) \o ZClose \o end, !.printed = TRUE,
                                    !.heap = [k \in 1..Len(@) |-> IF k \in ChainOf(m, v.z) THEN [@[k] EXCEPT !.state = "done"] ELSE @[k]]],
